@@ -361,6 +361,18 @@ def install_spec(reg):
 
     sf["writes"] = writes
 
+    def pause_chances(it, scope):
+        """how often, in this iteration / call, the transport had the chance to pause us again: a write that may fill its
+        buffer (the model of connection.send_record) or a producer's turn (which may write)"""
+        evs = it.ctx.trace
+        if it.concrete(scope) == "iter":
+            start = max([i for i, e in enumerate(evs) if e[0] == "loop-body-start"] + [-1])
+            evs = evs[start + 1:]
+        return VInt(sum(1 for e in evs if e[0] in ("reenter", "reentrant-writes")))
+
+    sf["pause_chances"] = pause_chances
+    sf["passed_loop"] = lambda it, k: VBool(any(e[0] == "loop-exit" and e[1][0] == it.concrete(k) for e in it.ctx.trace))
+
     def n_calls(it, suffix):
         suffix = it.concrete(suffix)
         return VInt(sum(1 for e in it.ctx.trace if e[0] == "call" and suffix in e[1][0]))
@@ -446,7 +458,9 @@ def conn_send_record(it, recv, meth, args, kwargs, fr):
     in order) grows by r; the transport may pause us re-entrantly"""
     r = args[0]
     rf = r
-    if isinstance(r, VTuple) and r.ntname in ("Ack", "Ping", "Pong", "KCM"):
+    ctrl = ("Ack", "Ping", "Pong", "KCM")
+    if (isinstance(r, VTuple) and r.ntname in ctrl) or \
+            (isinstance(r, VUnion) and all(isinstance(x, VTuple) and x.ntname in ctrl for _, x in r.alts)):
         pass
     elif isinstance(recv, VObj) and "sent" in recv.fields:
         s = recv.fields["sent"]
@@ -653,6 +667,17 @@ def outbound_contracts():
         note="re-entrant (called from a producer's turn): needs and re-establishes only the weak invariant; the record "
              "is always queued; it is handed to the connection now iff there is one and nothing older is still unsent"))
     cs.append(Contract(
+        OB + "send_if_connected", props=["C10", "C15", "C16"], params={"r": "union[nt[KCM],nt[Ping],nt[Pong],nt[Ack]]"},
+        self_fields=fields(*ALLF), assert_mode="prove", requires=INV,
+        ensures=named(INV) + [SAME_CONN, ("c16.control-record-goes-out-whenever-there-is-a-connection",
+                  "bcalls('send_record') == ite(self._connection is not None, 1, 0)"),
+                 ("c16.that-record-unchanged", "self._connection is None or bcall_arg('send_record', 0, 0) == r"),
+                 ("c10.not-queued", f"{Q} == old({Q}) and self._queued_unsent == old(self._queued_unsent) and "
+                                    f"{N} == old({N})")],
+        modifies=["_paused", "_paused_producers", "_unpaused_producers", "_connection.sent"],
+        note="KCM / Ping / Pong / Ack carry no seqnum: they are handed to the current connection at once, whatever the "
+             "flow-control state (a paused transport still buffers them), and dropped when there is none"))
+    cs.append(Contract(
         OB + "handle_ack", props=["C10"], params={"resp_seqnum": "int"}, self_fields=fields(*QF),
         requires=INV_Q[:3],
         ensures=named(INV_Q[:3]) + [
@@ -710,13 +735,19 @@ def outbound_contracts():
             ("c10.stream-to-connection-conserved", stream.format("old").replace("W", NEWQ)),
             ("c15.noop-when-not-paused", "old(self._paused) or (self._paused_producers == old(self._paused_producers) and "
                                          "self._unpaused_producers == old(self._unpaused_producers) and not self._paused)")],
+        internal_ensures=[
+            # "never loses a wake-up": a resume from the transport ends un-paused, unless the transport paused us again in
+            # the meantime - which it can only do from inside a write or a producer's turn of the loop (loop invariant:
+            # paused => at least one such chance occurred)
+            ("c15.a-wake-up-is-never-dropped", "not old(self._paused) or not self._paused or passed_loop(0)")],
         modifies=ALLMOD,
         loops={0: {"header": "not self._paused",
                    "modifies": [("self", "_paused"), ("self", "_connection", "sent"), ("self", "_outbound_queue"),
                                 ("self", "_next_outbound_seqnum"), ("self", "_subchannel_producers"), ("self", "_all_producers")],
-                   "ghost_init": {"W": f"empty_seq('{SEQREC}')"},
-                   "ghost_update": {"W": "W + writes('iter')"},
-                   "invariant": INV_W + [f"{Q} == at_entry({Q}) + W", f"{N} == at_entry({N}) + len(W)", stream.format("at_entry")],
+                   "ghost_init": {"W": f"empty_seq('{SEQREC}')", "PZ": "0"},
+                   "ghost_update": {"W": "W + writes('iter')", "PZ": "PZ + pause_chances('iter')"},
+                   "invariant": INV_W + [f"{Q} == at_entry({Q}) + W", f"{N} == at_entry({N}) + len(W)", stream.format("at_entry"),
+                                         "PZ >= 0", "not self._paused or PZ >= 1"],
                    "body_ensures": [
                        "len(at_iter(self._queued_unsent)) == 0 or (iter_bcalls('resumeProducing') == 0 and "
                        "iter_bcalls('send_record') == 1 and iter_bcall_arg('send_record', 0) == at_iter(self._queued_unsent)[0])",
